@@ -23,4 +23,5 @@ func C10(r *core.Run) {
 			rules.E("lib/j5reflect", "Reflector.NewObject"),
 		},
 	})
+	rules.PoolOwnership(r, []string{"internal/codec", "lib/j5reflect", "lib/j5schema"})
 }
